@@ -160,14 +160,11 @@ GetNamespace(H, p) == LET k == FirstIdx(H.excl, 1, p)
 (* prefix and inherited from the enclosing elements - a prefix (or the default namespace) that was *)
 (* excluded further out and re-declared since, or whose declaration merely shares its URI with an  *)
 (* excluded prefix, still answers with the URI it had where it was excluded (and un-aliased).      *)
-(* KD_aliasAppliedToXslAttribute: every handler but xsl:element's holds alias URIs, so the QName   *)
-(* of an xsl:attribute is expanded with the RESULT side of a namespace-alias.                      *)
 (* want = the namespace XSLT prescribes for the prefix at this instruction (Null/"" = none)        *)
 Norm(x) == IF x = Null THEN "" ELSE x
 NsTag(ss, S, got, inScope, aliasExpected) ==
   LET want == IF aliasExpected /\ inScope # Null THEN Aliased(ss, inScope) ELSE inScope
   IN IF Norm(got) = Norm(want) THEN S
-     ELSE IF inScope # Null /\ got = Aliased(ss, inScope) THEN Tag(S, "aliasAppliedToXslAttribute")
      ELSE Tag(S, "staleExcludedPrefix")
 
 SsCtx(ss) == <<<<"xsl", XSLTNS>>>> \o ss.nsd
@@ -182,10 +179,10 @@ OutputResultNamespaces(S, decls, i) ==
        IN OutputResultNamespaces(IF dest = Null \/ dest # decls[i][2] THEN AddNsAttr(S, decls[i][1], decls[i][2]) ELSE S, decls, i + 1)
 
 (* xsl:attribute - ElemAttribute::startElement + endElement.  H = the instruction's own handler   *)
-(* (its declarations carry alias URIs: KD_aliasAppliedToXslAttribute)                              *)
+(* (like xsl:element's it is built without alias substitution)                                     *)
 ExecAttribute(ss, S, ins, nss0, parH) ==
   LET nss == Append(nss0, ins.nsd)
-      H   == InstrHandler(ss, nss, parH)
+      H   == PostConstruction(ss, HandlerCtor(nss), parH.excl, "xsl", {}, FALSE)
       p   == ins.p
       l   == ins.l
   IN IF ins.hasNs THEN
@@ -226,10 +223,15 @@ ExecAttribute(ss, S, ins, nss0, parH) ==
      ELSE S
 
 (* copying an attribute node (xsl:copy / xsl:copy-of): cloneToResultTree ATTRIBUTE_NODE - the     *)
-(* QName is added as it is, no declaration is made (KD_copiedAttributeNotFixedUp)                  *)
+(* QName is kept if its prefix is (or can be) bound to the attribute's namespace on the pending    *)
+(* element; if the prefix is in use there for another namespace the attribute gets an invented one *)
+(* (createFixedUpResultAttribute)                                                                  *)
 ExecCopyAttr(S, a) ==
   IF ~S.open THEN S
-  ELSE AddResultAttr(IF a.p # "" /\ BoundUri(S, a.p) # a.u THEN Tag(S, "copiedAttributeNotFixedUp") ELSE S, a.p, a.l, a.v, TRUE)
+  ELSE LET bound == IF a.p = "" THEN Null ELSE NsForPrefix(S, a.p)
+       IN IF a.p = "" \/ a.u = "" \/ a.p = "xmlns" \/ bound = a.u THEN AddResultAttr(S, a.p, a.l, a.v, TRUE)
+          ELSE IF bound = Null \/ ~IsPendingResultPrefix(S, a.p) THEN AddResultAttr(AddNsAttr(S, a.p, a.u), a.p, a.l, a.v, TRUE)
+          ELSE LET U == Unique(S) IN AddResultAttr(AddNsAttr(U.S, U.prefix, a.u), U.prefix, a.l, a.v, FALSE)
 
 RECURSIVE ExecSets(_, _, _, _)
 RECURSIVE ExecSetAttrs(_, _, _, _, _, _)
@@ -311,10 +313,8 @@ ExecBody(ss, src, S, body, i, nss, H, kids, fr) ==
     ELSE LET r == ExecElem(ss, src, S, ins, nss, H)
          IN ExecBody(ss, src, r.S, body, i + 1, nss, H, Append(kids, r.node), IF fr = <<>> THEN <<S.pa>> ELSE fr)
 
-(* ElemLiteralResult::evaluateAVTs.  ElemLiteralResult::init keeps every attribute that has no     *)
-(* colon or a non-XSLT prefix as an AVT - including a default-namespace declaration xmlns="..."    *)
-(* written on the element itself, which is therefore ALSO output as a literal attribute: neither   *)
-(* exclusion nor aliasing applies to it (KD_defaultDeclarationIsLiteralAttribute)                  *)
+(* ElemLiteralResult::evaluateAVTs: the attributes of the element that are neither namespace       *)
+(* declarations (xmlns, xmlns:p) nor in the XSLT namespace                                         *)
 (* KD_literalAttributePrefixRebound: the attribute sets run BEFORE the element's own attributes   *)
 (* are added; an xsl:attribute of a set may declare prefix P on the pending start tag (P is not yet *)
 (* "pending"), and the literal attribute P:a added afterwards lands in that namespace              *)
@@ -324,11 +324,6 @@ LreAttrs(ss, S, attrs, i, nss) ==
   ELSE LET a  == attrs[i]
            St == IF a.p \notin {"", "xml"} /\ BoundUri(S, a.p) # Aliased(ss, LookupNss(nss, a.p)) THEN Tag(S, "literalAttributePrefixRebound") ELSE S
        IN LreAttrs(ss, AddResultAttr(St, a.p, a.l, a.v, FALSE), attrs, i + 1, nss)
-LreAvts(ins) == LET k == FirstIdx(ins.nsd, 1, "")
-                IN (IF k = 0 THEN <<>> ELSE <<[p |-> "", l |-> "xmlns", v |-> ins.nsd[k][2]]>>) \o ins.attrs
-KD_defaultDeclarationIsLiteralAttribute(ss, ins, H) ==
-  LET k == FirstIdx(ins.nsd, 1, "")
-  IN k # 0 /\ (HasUri(H.excl, ins.nsd[k][2]) \/ Aliased(ss, ins.nsd[k][2]) # ins.nsd[k][2])
 
 ExecElem(ss, src, S, ins, nss0, parH) ==
   CASE ins.i = "lre" ->
@@ -348,7 +343,7 @@ ExecElem(ss, src, S, ins, nss0, parH) ==
                         S2t == NsTag(ss, S2, own, LookupNss(nss, ""), TRUE)
                     IN IF cur = Null THEN S2 ELSE IF own = Null THEN AddNsAttr(S2t, "", "") ELSE IF cur # own THEN AddNsAttr(S2t, "", own) ELSE S2
         S4  == ExecSets(ss, S3, ins.uas, 1)
-        S5  == LreAttrs(ss, IF KD_defaultDeclarationIsLiteralAttribute(ss, ins, H) THEN Tag(S4, "defaultDeclarationIsLiteralAttribute") ELSE S4, LreAvts(ins), 1, nss)
+        S5  == LreAttrs(ss, S4, ins.attrs, 1, nss)
         r   == ExecBody(ss, src, S5, ins.body, 1, nss, H, <<>>, <<>>)
     IN [S |-> [EndElement(r.S) EXCEPT !.ex = S.ex], node |-> [p |-> ins.p, l |-> ins.l, a |-> r.attrs, c |-> r.kids]]
   [] ins.i = "element" ->
@@ -403,14 +398,11 @@ Run(ss, src) ==
 NotWF == {"serialised-result-not-wellformed"}
 KDFaults(t) ==
   CASE t = "attrListKeyedByQName"         -> {"duplicate-expanded-attribute-name", "attribute-value", "attribute-name"} \cup NotWF
-    [] t = "copiedAttributeNotFixedUp"    -> {"unbound-prefix", "attribute-name", "attribute-value", "duplicate-expanded-attribute-name"} \cup NotWF
-    [] t = "aliasAppliedToXslAttribute"   -> {"attribute-name", "attribute-value", "duplicate-expanded-attribute-name"} \cup NotWF
     [] t = "staleExcludedPrefix"          -> {"element-name", "default-namespace-leak", "attribute-name", "attribute-value", "duplicate-expanded-attribute-name",
                                               "excluded-namespace-declared", "alias-stylesheet-namespace-declared"} \cup NotWF
     [] t = "literalAttributePrefixRebound" -> {"attribute-name", "attribute-value", "duplicate-expanded-attribute-name"} \cup NotWF
-    [] t = "defaultDeclarationIsLiteralAttribute" -> {"excluded-namespace-declared", "alias-stylesheet-namespace-declared", "element-name"}
     [] OTHER -> {}
-KDTags == {"staleExcludedPrefix", "attrListKeyedByQName", "copiedAttributeNotFixedUp", "aliasAppliedToXslAttribute",
-           "defaultDeclarationIsLiteralAttribute", "literalAttributePrefixRebound"}
+KDTags == {"staleExcludedPrefix", "attrListKeyedByQName",
+           "literalAttributePrefixRebound"}
 Explained(tags) == UNION {KDFaults(t) : t \in tags}
 =============================================================================
